@@ -147,7 +147,8 @@ ShimComment(ty, tid, c) == IF ty = "Unknown" THEN c
 \* Part 3: cases, events, properties
 
 \* case descriptor (homogeneous): kind, KeyID value, mutated field / operator / value, option, junk kind,
-\* type and list length of a direct principals call, comment class and path of a shim listing
+\* type and list length of a direct principals call, comment class and path of a shim listing; for "dec" n and for
+\* "prins" v is the index of the judged call among repeated calls with the same input
 Cs(kind, k, f, m, v, o, j, ty, n, cm, path) ==
   [kind |-> kind, k |-> k, f |-> f, m |-> m, v |-> v, opt |-> o, j |-> j, ty |-> ty, n |-> n, cm |-> cm, path |-> path]
 C0 == Cs("init", ZeroK, "", "", 0, "absent", "", "", 0, "", "")
@@ -160,7 +161,8 @@ JunkKinds == {"null", "array", "number", "string", "true", "emptyobj", "nested",
 E0 == [op |-> "init", cs |-> C0,
        k |-> ZeroK, sin |-> "", present |-> {}, nil |-> FALSE, opt |-> "absent", pin |-> <<>>, tyin |-> "", ocmt |-> "",
        pan |-> FALSE, ok |-> FALSE, dok |-> FALSE, dk |-> ZeroK, sout |-> "", tid |-> "",
-       ty |-> "", lok |-> FALSE, label |-> "", pout |-> <<>>, found |-> FALSE, cmt |-> ""]
+       ty |-> "", lok |-> FALSE, label |-> "", pout |-> <<>>, found |-> FALSE, cmt |-> "",
+       rep |-> 0, ok1 |-> FALSE, dk1 |-> ZeroK, s1 |-> "", pafter |-> <<>>, pfirst |-> <<>>, pfirst2 |-> <<>>]
 (* fields: op    "enc" encode k then decode the produced text; "dec" decode a text; "cert" type/label/principals of a
                  certificate; "prins" principals for a given type; "shim" comment of a certificate listed by a shim agent
            k, sin        enc: the KeyID value and a tag of all its concrete contents
@@ -173,16 +175,24 @@ E0 == [op |-> "init", cs |-> C0,
                          dec/cert/shim: dk = decoded value
            tid           transaction id of the decoded KeyID
            ty, lok, label, pout   observed type, label present, label, principals returned
-           found, cmt    shim: the certificate was listed, with this comment *)
+           found, cmt    shim: the certificate was listed, with this comment
+           rep           index of this call among the calls made with the same input in one process (0 = first); the
+                         caller overwrites every field of each returned KeyID (and the elements of its principal list)
+                         before calling again, and calls may come from several goroutines
+           ok1, dk1, s1  dec, rep > 0: verdict, value and content tag the first call with this text produced
+           pafter        cert/prins: contents of the caller's principal list after the call
+           pfirst, pfirst2   prins, rep > 0: the first call's result as read right after it / read again after this call *)
 
 PinAbs == <<"p1", "p2">>
 DecEv(c, t) == LET ok == DecodeOK(t) IN
   [E0 EXCEPT !.op = "dec", !.cs = c, !.present = Present(t), !.ok = ok, !.dk = IF ok THEN Decoded(t) ELSE ZeroK,
-             !.tid = IF ok THEN "T" ELSE ""]
+             !.tid = IF ok THEN "T" ELSE "", !.sout = IF ok THEN "s" ELSE "",
+             \* decoding is a function of the text: a repeated call gives what the first call gave
+             !.rep = IF c.kind = "dec" THEN c.n ELSE 0, !.ok1 = ok, !.dk1 = IF ok THEN Decoded(t) ELSE ZeroK, !.s1 = IF ok THEN "s" ELSE ""]
 CertEv(c, decodes, k, o) == LET ty == TypeOf(FALSE, decodes, k, o) IN
   [E0 EXCEPT !.op = "cert", !.cs = c, !.opt = o, !.pin = PinAbs, !.ok = decodes, !.dk = IF decodes THEN k ELSE ZeroK,
              !.tid = IF decodes THEN "T" ELSE "", !.ty = ty, !.lok = ty # "Unknown",
-             !.label = IF ty # "Unknown" THEN LabelOf(ty, "T") ELSE "", !.pout = PrincipalsOf(PinAbs, ty)]
+             !.label = IF ty # "Unknown" THEN LabelOf(ty, "T") ELSE "", !.pout = PrincipalsOf(PinAbs, ty), !.pafter = PinAbs]
 
 \* the event the design produces for a case
 Ev(c) ==
@@ -197,9 +207,10 @@ Ev(c) ==
     [] c.kind = "cert" -> CertEv(c, DecodeOK(Encode(c.k)), c.k, c.opt)
     [] c.kind = "certjunk" -> CertEv(c, FALSE, ZeroK, c.opt)
     [] c.kind = "nil"  -> [E0 EXCEPT !.op = "cert", !.cs = c, !.nil = TRUE, !.ty = "Unknown"]
-    [] c.kind = "prins" -> LET pin == SubSeq(PinAbs, 1, c.n) IN
-         [E0 EXCEPT !.op = "prins", !.cs = c, !.tyin = c.ty, !.pin = pin,
-                    !.pout = IF c.ty \in Types THEN PrincipalsOf(pin, c.ty) ELSE pin]
+    [] c.kind = "prins" -> LET pin == SubSeq(PinAbs, 1, c.n)
+                               out == IF c.ty \in Types THEN PrincipalsOf(pin, c.ty) ELSE pin IN
+         [E0 EXCEPT !.op = "prins", !.cs = c, !.tyin = c.ty, !.pin = pin, !.pout = out,
+                    !.pafter = pin, !.rep = c.v, !.pfirst = out, !.pfirst2 = out]
     [] c.kind = "shim" -> LET d  == DecodeOK(Encode(c.k))
                               ty == TypeOf(FALSE, d, c.k, c.opt)
                               oc == IF c.cm = "some" THEN "c" ELSE "" IN
@@ -213,7 +224,9 @@ C05_Holds(e) ==
   /\ e.op = "enc" => /\ e.ok <=> EncodeOK(e.k)                           \* succeeds exactly when supported and consistent
                      /\ e.ok => /\ e.dok /\ e.dk = e.k /\ e.sout = e.sin \* decoding the encoded text yields an equal KeyID
                                 /\ DecodePost(e.dok, e.dk, e.present)
-  /\ e.op = "dec" => DecodePost(e.ok, e.dk, e.present)                   \* any text: fails, or supported + complete + consistent
+  /\ e.op = "dec" => /\ DecodePost(e.ok, e.dk, e.present)                \* any text: fails, or supported + complete + consistent
+                     \* the result depends on the text only, not on earlier calls or on what callers did with earlier results
+                     /\ e.rep > 0 => (e.ok = e.ok1 /\ e.dk = e.dk1 /\ e.sout = e.s1)
 
 \* ---- C19 on one event
 C19_Holds(e) ==
@@ -222,7 +235,10 @@ C19_Holds(e) ==
        /\ e.ty = ty
        /\ IF ty = "Unknown" THEN ~e.lok ELSE e.lok /\ e.label = LabelOf(ty, e.tid)
        /\ e.pout = PrincipalsOf(e.pin, ty)
-  /\ e.op = "prins" => (e.tyin \in Types => e.pout = PrincipalsOf(e.pin, e.tyin))
+       /\ e.pafter = e.pin                                                \* the caller's list is left as it was
+  /\ e.op = "prins" => /\ e.tyin \in Types => e.pout = PrincipalsOf(e.pin, e.tyin)
+                       /\ e.pafter = e.pin
+                       /\ e.rep > 0 => e.pfirst2 = e.pfirst                \* a later call does not change an earlier result
   /\ e.op = "shim" => /\ e.found
                       /\ e.cmt = ShimComment(TypeOf(FALSE, e.ok, e.dk, e.opt), e.tid, e.ocmt)
 
@@ -239,7 +255,7 @@ InitEv == E0
 Init == ev = InitEv
 At(kind) == ev.op = "init" /\ kind \in Kinds
 EncCase  == At("enc")  /\ \E k \in KeyIDs : ev' = Ev(Cs("enc", k, "", "", 0, "absent", "", "", 0, "", ""))
-DecCase  == At("dec")  /\ \E k \in KeyIDs : ev' = Ev(Cs("dec", k, "", "", 0, "absent", "", "", 0, "", ""))
+DecCase  == At("dec")  /\ \E k \in KeyIDs, r \in 0..1 : ev' = Ev(Cs("dec", k, "", "", 0, "absent", "", "", r, "", ""))
 MutCase  == At("mut")  /\ \E k \in Encodable, f \in AllFields, m \in MutOps :
                             \E v \in (IF m = "dup" THEN ValuesOf(f) ELSE {0}) :
                               ev' = Ev(Cs("mut", k, f, m, v, "absent", "", "", 0, "", ""))
@@ -247,8 +263,8 @@ JunkCase == At("junk") /\ \E j \in JunkKinds : ev' = Ev(Cs("junk", ZeroK, "", ""
 CertCase == At("cert") /\ \E k \in KeyIDs, o \in Opts : ev' = Ev(Cs("cert", k, "", "", 0, o, "", "", 0, "", ""))
 CertJunkCase == At("certjunk") /\ \E j \in JunkKinds, o \in Opts : ev' = Ev(Cs("certjunk", ZeroK, "", "", 0, o, j, "", 0, "", ""))
 NilCase  == At("nil")  /\ ev' = Ev(Cs("nil", ZeroK, "", "", 0, "absent", "", "", 0, "", ""))
-PrinsCase == At("prins") /\ \E ty \in Types \cup {"other"}, n \in 0..2 :
-                            ev' = Ev(Cs("prins", ZeroK, "", "", 0, "absent", "", ty, n, "", ""))
+PrinsCase == At("prins") /\ \E ty \in Types \cup {"other"}, n \in 0..2, r \in 0..1 :
+                            ev' = Ev(Cs("prins", ZeroK, "", "", r, "absent", "", ty, n, "", ""))
 ShimCase == At("shim") /\ \E k \in {x \in KeyIDs : x.ver = 1 /\ x.usage = 0}, o \in Opts, cm \in {"none", "some"}, p \in {"agent", "hard"} :
                             ev' = Ev(Cs("shim", k, "", "", 0, o, "", "", 0, cm, p))
 Back == ev.op # "init" /\ ev' = InitEv
